@@ -372,7 +372,18 @@ func (w *World) cellKey(s Sort) string {
 	return key
 }
 
-func (w *World) elemsKey(s Sort) string {
+// elemsKeyT: the contents of slice/array backing arrays, one heap key per
+// element type (backing arrays of different element types never alias).
+func (w *World) elemsKeyT(et types.Type) string {
+	if b, ok := types.Unalias(et).(*types.Basic); ok && b.Kind() < types.UntypedBool {
+		et = types.Typ[b.Kind()] // byte and uint8, rune and int32 are the same type
+	}
+	key := "Elems!" + mangle(types.TypeString(types.Unalias(et), func(p *types.Package) string { return p.Name() }))
+	w.heapSort[key] = arraySort(SInt, arraySort(SInt, w.sortOf(et)))
+	return key
+}
+
+func (w *World) elemsKeyOld(s Sort) string {
 	key := "Elems!" + sortSuffix(s)
 	w.heapSort[key] = arraySort(SInt, arraySort(SInt, s))
 	return key
